@@ -247,6 +247,47 @@ pub fn run(run: &Run) {
             directed_dirs.push((root.join(format!("directed{j}")), true));
         }
     }
+    // directed family 2: ALL fixed-layout key histories of length 4 over a class-representative alphabet of the synthetic
+    // layout (consonant, hasanta, ASCII mark, old-style reph key, left-standing sign, zo-fola, chandrabindu, backspace) under
+    // four settings of {old reph, old vowel-sign order}: the composed text is rewritten in place by several helpers, and every
+    // string handed out must still be valid UTF-8 equal to the Rust value.  Packed 15 histories to a file, no data needed.
+    {
+        let inv = crate::driver::layout_inverse(crate::driver::Layout::Synthetic);
+        let key_of = |v: &str| -> (u8, u8) {
+            let (code, m) = inv.get(v).copied().unwrap_or((0, 0));
+            (keys().keys.iter().position(|k| k.code == code).unwrap_or(0) as u8, m)
+        };
+        let alphabet: Vec<Option<(u8, u8)>> = vec![Some(key_of("\u{0995}")), Some(key_of("\u{09CD}")), Some(key_of(",")), Some(key_of(crate::model::REPH)), Some(key_of("\u{09BF}")), Some(key_of(crate::model::ZOFOLA)), Some(key_of("\u{0981}")), None];
+        let n = alphabet.len();
+        let mut st = run.stats.lock().unwrap();
+        let mut n_files = 0usize;
+        for (si, bits) in [64u16, 64 | 256, 256, 64 | 8 | 32].iter().enumerate() {
+            // header: synthetic layout (index 2 of the target's table), no data, option bits
+            let header = [2u8, 5, (*bits & 0xff) as u8, (*bits >> 8) as u8];
+            let mut ops: Vec<(u8, Op)> = vec![];
+            for code in 0..n.pow(4) {
+                let mut x = code;
+                for _ in 0..4 {
+                    match alphabet[x % n] {
+                        Some((k, m)) => ops.push((0, Op::Key(0, k, m, 0))),
+                        None => ops.push((0, Op::Backspace(0, 1))),
+                    }
+                    x /= n;
+                }
+                ops.push((0, Op::Finish(0)));
+                if ops.len() + 5 > 62 || code + 1 == n.pow(4) {
+                    let d = root.join(format!("directed{}", n_files % 6));
+                    std::fs::create_dir_all(&d).unwrap();
+                    std::fs::write(d.join(format!("f{si}-{n_files:05}")), encode(header, &ops)).unwrap();
+                    n_files += 1;
+                    ops.clear();
+                    st.eval();
+                }
+            }
+        }
+        st.label("fixed-layout-histories-over-a-class-alphabet");
+        st.count("fixed-layout-history-files", n_files as u64);
+    }
     // committed seed / regression inputs
     let committed = Path::new("/verif/corpus/C19-ffi");
     let mut all_dirs = dirs.clone();
